@@ -109,17 +109,32 @@ class Ctx:
             if env:
                 e.update(env)
             try:
-                res = tlc.run(module, cfg, env=e, **kw)
+                # a TLC run that dies (no verdict for some trace, internal error) is a machinery failure, never a
+                # verdict; it is retried once because it has been seen to happen intermittently under heavy machine load
+                for attempt in (1, 2):
+                    problem = None
+                    try:
+                        res = tlc.run(module, cfg, env=e, **kw)
+                        v = tlc.verdicts(res)
+                        if not res.ok:
+                            problem = "trace spec %s failed: %s %s\n%s" % (res.module, res.violated, res.errors, res.stdout[-3000:])
+                        elif len(v) != len(chunk):
+                            problem = "trace spec %s returned %d verdicts for %d traces\n%s" % (
+                                res.module, len(v), len(chunk), res.stdout[-3000:])
+                    except tlc.TLCFailure as ex:
+                        problem = str(ex)
+                    if problem is None:
+                        break
+                    fdir = os.path.join(VERIF, "out", "tlc-failures")
+                    os.makedirs(fdir, exist_ok=True)
+                    with open(os.path.join(fdir, "%s-%d-%d.log" % (self.pid, os.getpid(), attempt)), "w") as fh:
+                        fh.write(problem)
+                    if attempt == 2:
+                        raise tlc.TLCFailure(problem)
+                    self.notes["tlc_retries"] = self.notes.get("tlc_retries", 0) + 1
             finally:
                 tlc.cleanup(d)
             self._account(res, name or res.module)
-            if not res.ok:
-                raise tlc.TLCFailure("trace spec %s failed: %s %s\n%s" % (
-                    res.module, res.violated, res.errors, res.stdout[-3000:]))
-            v = tlc.verdicts(res)
-            if len(v) != len(chunk):
-                raise tlc.TLCFailure("trace spec %s returned %d verdicts for %d traces\n%s" % (
-                    res.module, len(v), len(chunk), res.stdout[-3000:]))
             for k, text in v.items():
                 out[b0 + k - 1] = text
         for i, t in enumerate(traces):
